@@ -26,13 +26,13 @@ CLAIMED = {
  "C08": dict(engine="E1+S-cli", design="§5 C08", technique="bounded exhaustive planting of unsupported constructs under all carrier chains and positions; parser verdict + differential under skip; CLI runs for the no-output clause",
      text="6 unsupported types under every carrier chain of depth ≤ 2 (quick) / ≤ 3 (thorough; depth 4–5 with ≤ 2 distinct constructors) over 9 constructors at 9 positions × 3 skip states, plus 17 structural constructs × 6 languages; the real parser must record an error, and with the construct under a skip marker the output must equal that of the program with the member deleted. The real binary is run on 9 constructs × languages × single/multi × absent/pre-existing output: it must exit with an error naming the file and leave the output location byte- and mtime-identical.",
      note="Representable integer constant expressions (-5, (9)) may be accepted if the generated value is right. The CLI family uses a fixed list of constructs."),
- "C09": dict(engine="E1", design="§5 C09", technique="bounded exhaustive product over reference shapes; Referenced ⊆ Defined computed from the parsed output",
+ "C09": dict(engine="E1", design="§5 C09", technique="bounded exhaustive product over reference shapes; Referenced ⊆ Defined computed from the parsed output; items renamed onto each other's names also through the real binary (S-cli), file and folder output",
      text="Full product of 6 target kinds × serde(rename) on target × 13 reference positions (fields, containers, generic arguments, payloads, struct-variant fields, alias targets, self reference, generic-parameter positions) × serde(rename) on the referrer × 6 languages × 2 prefix configurations; every non-primitive name in a type tree, variant parent clause or Inner reference must be a definition of the same output, and every item must be defined as prefix + renamed name.",
      note="Names recognised as target primitives/builtins/helper vocabulary are not treated as user references (helpers are C12's)."),
  "C10": dict(engine="E1", design="§5 C10", technique="deviation-bounded exhaustive enumeration of feature subsets over a baseline program; per-language acceptors, CPython ast + import under a stub pydantic for Python",
      text="A baseline with one item of every kind plus every subset of ≤ 2 (quick) / ≤ 3 (thorough, ≈20k programs) features from a 50-entry menu (generics, dashed/keyword/digit renames, optional forms, empty items, decorators, redaction, type overrides, docs, keyword tag keys, header/package/prefix settings, consts, recursion, nested modules) × 6 languages. Each output must be accepted by the language's recursive-descent acceptor; Python output is additionally parsed by CPython and executed under a stub pydantic in one batch.",
      note="The acceptors reject only what is certainly invalid for the declaration subset typeshare emits; they are not full grammars (no tsc/kotlinc/swiftc/scalac/go installed). Keyword escaping is judged only where promised (Swift, Python)."),
- "C11": dict(engine="E1", design="§5 C11", technique="exhaustive enumeration of labelled digraphs rendered as programs; permutation and topological-order oracle on the recovered definition order",
+ "C11": dict(engine="E1", design="§5 C11", technique="exhaustive enumeration of labelled digraphs rendered as programs; permutation and topological-order oracle on the recovered definition order; every ordered selection of directory arguments through the real binary (S-cli)",
      text="Every labelled digraph with self loops on ≤ 3 nodes × 11 edge carriers, × every node-kind assignment (struct, two enum forms, alias, const) × serde-renamed node; every digraph on 4 nodes (acyclic only in quick; all 65 536 × 4 carriers in thorough); seven parametric families up to 12 nodes under every rotation of the labeling; for the five backends sharing the ordering.",
      note="Graphs with 5+ nodes only from the named families."),
  "C12": dict(engine="E1", design="§5 C12", technique="bounded exhaustive product over helper-triggering types, positions and nesting chains; helper uses ⊆ definitions ∪ imports from a token scan of the real output",
